@@ -511,6 +511,27 @@ func main() {
 	}
 	out.Def("parserCalls", "List (String × String)", "[\n  "+strings.Join(pc, ",\n  ")+"]")
 
+	// concatStrings: does the "plain string, then f-string" branch test for an f-string without variables before
+	// it indexes Vars[0]?
+	guard := false
+	ast.Inspect(gp.Func("concatStrings").Body, func(n ast.Node) bool {
+		is, ok := n.(*ast.IfStmt)
+		if !ok {
+			return true
+		}
+		c := strings.ReplaceAll(gp.Src(is.Cond), " ", "")
+		if strings.Contains(c, ".FString==nil&&") && strings.HasSuffix(c, ".FString!=nil") && len(is.Body.List) > 0 {
+			if inner, ok := is.Body.List[0].(*ast.IfStmt); ok {
+				ic := strings.ReplaceAll(gp.Src(inner.Cond), " ", "")
+				if strings.HasPrefix(ic, "len(") && strings.HasSuffix(ic, ".FString.Vars)==0") && endsControl(inner.Body.List, "fail") {
+					guard = true
+				}
+			}
+		}
+		return true
+	})
+	out.Def("concatGuardsBareFString", "Bool", xlib.LeanBool(guard))
+
 	// grammar tables
 	out.Def("keywords", "List String", xlib.LeanStrList(stringKeys(gp, gp.VarValue("keywords"))))
 	out.Def("operators", "List String", xlib.LeanStrList(stringKeys(gr, gr.VarValue("operators"))))
